@@ -555,14 +555,154 @@ func (g *gen) navCandidate(depth int) *gnode {
 	return n
 }
 
+// run builds one inline run for a block container: text and inline elements
+// around a token; sometimes blank (white space, a comment, a br, a script only).
+func (g *gen) run(force bool) (kids []*gnode, tok, logical string) {
+	r := g.r
+	if !force && r.Chance(1, 5) {
+		g.f("run-blank")
+		switch r.Intn(5) {
+		case 0:
+			return []*gnode{tx(" \n\t ")}, "", ""
+		case 1:
+			return []*gnode{&gnode{tag: "#comment", text: " " + g.leak() + " "}}, "", ""
+		case 2:
+			return []*gnode{tx(" "), el("br"), tx(" ")}, "", ""
+		case 3:
+			return []*gnode{&gnode{tag: "script", raw: true, kids: []*gnode{tx("var r='" + g.leak() + "';")}}}, "", ""
+		default:
+			return []*gnode{el("span", tx(" ")), el("b")}, "", ""
+		}
+	}
+	tok = g.tok()
+	kids, logical = g.inline(tok, true)
+	if r.Chance(1, 6) {
+		// an inline element with navigation-like attributes around the whole run
+		w := g.decorate(el(hx.Pick(r, []string{"span", "a", "b", "label", "small"})), 60)
+		w.kids = kids
+		kids = []*gnode{w}
+		g.f("run-wrapped")
+	}
+	if r.Chance(1, 8) {
+		kids = append(kids, el("dl", el("dt", tx(g.neut())), el("dd", tx(g.neut()))))
+		g.f("run-dl")
+	}
+	return kids, tok, logical
+}
+
+var mixedTags = []string{"div", "div", "div", "div", "div", "p", "p", "section", "article", "blockquote", "li", "td", "main", "span", "center"}
+
+// mixed builds a container whose children interleave inline runs with
+// block-level children (nested containers of the same kind among them). For a
+// p only a table stays inside the paragraph, and only in quirks mode.
+func (g *gen) mixed(depth int) *gnode {
+	r := g.r
+	g.budget--
+	tag := hx.Pick(r, mixedTags)
+	n := el(tag)
+	g.f("mixed-" + tag)
+	switch tag {
+	case "p":
+		n.kind = "para"
+	case "blockquote":
+		n.kind = "quote"
+	case "li":
+		n.kind = "item"
+	case "td":
+		n.kind = "cell"
+	}
+	segs := r.Range(2, 5)
+	startRun := n.kind != "" || r.Bool()
+	for i := 0; i < segs; i++ {
+		if (i%2 == 0) == startRun {
+			kids, tok, logical := g.run(n.kind != "" && n.tok == "")
+			if n.kind != "" && n.tok == "" {
+				n.tok, n.own = tok, logical
+			}
+			n.kids = append(n.kids, kids...)
+			continue
+		}
+		var b *gnode
+		switch {
+		case tag == "p" && r.Chance(4, 5):
+			b = g.table(depth + 1)
+		case depth < 8 && g.budget > 0 && r.Chance(1, 4):
+			b = g.mixed(depth + 1)
+			g.f("mixed-nested")
+		case r.Chance(1, 8) || (tag == "p" && r.Bool()):
+			// a wrapper that is not block-level around a block-level element, with text of its own
+			wk, _, _ := g.run(false)
+			w := el(hx.Pick(r, []string{"span", "a", "form", "figure", "font"}), wk...)
+			if tag == "p" {
+				w.kids = append(w.kids, g.table(depth+1)) // anything else would close the p
+			} else {
+				w.kids = append(w.kids, g.blockLevel(depth+1))
+			}
+			if r.Bool() {
+				tk, _, _ := g.run(false)
+				w.kids = append(w.kids, tk...)
+			}
+			b = g.decorate(w, 15)
+			g.f("mixed-wrapper")
+		case r.Chance(1, 10):
+			b = &gnode{tag: "code", kids: []*gnode{tx(g.tok() + "()")}}
+			g.f("mixed-code-child")
+		default:
+			b = g.blockLevel(depth + 1)
+		}
+		n.kids = append(n.kids, b)
+	}
+	g.decorate(n, 12)
+	switch tag {
+	case "li":
+		l := el(hx.Pick(r, []string{"ul", "ol"}), n)
+		if r.Bool() {
+			l.kids = append(l.kids, g.content("li", "item", true))
+		}
+		return l
+	case "td":
+		return el("table", el("tr", n, g.cell(depth+1, false)))
+	}
+	return n
+}
+
+// blockLevel builds one block-level child of a block container.
+func (g *gen) blockLevel(depth int) *gnode {
+	r := g.r
+	switch r.Intn(12) {
+	case 0, 1:
+		return g.heading()
+	case 2, 3, 4:
+		return g.para()
+	case 5:
+		return g.list(depth+1, 0)
+	case 6:
+		return g.table(depth + 1)
+	case 7:
+		return g.pre()
+	case 8:
+		return g.quote(depth + 1)
+	case 9:
+		return g.navCandidate(depth + 1)
+	case 10:
+		return g.decorate(g.content("div", "", true), 10)
+	default:
+		c := g.decorate(el(hx.Pick(r, []string{"div", "section", "article", "aside", "nav", "header"})), 20)
+		c.kids = append(c.kids, g.blocks(depth+1, r.Range(1, 2))...)
+		return c
+	}
+}
+
 func (g *gen) block(depth int) *gnode {
 	r := g.r
 	g.budget--
-	k := r.Intn(100)
+	k := r.Intn(118)
 	if depth >= 9 || g.budget <= 0 {
 		k = r.Intn(40)
 	}
 	switch {
+	case k >= 100:
+		return g.mixed(depth + 1)
 	case k < 13:
 		return g.heading()
 	case k < 29:
